@@ -328,6 +328,12 @@ def ref_chunked(stream, pos, lvl):
             line = stream[pos:]
             if line and not re.match(rb"[0-9A-Fa-f]", line[:1]):
                 return "invalid", body, pos, feats, "chunk-size line does not start with a hex digit"
+            pm = re.fullmatch(rb"([0-9A-Fa-f]*)(\r|[ \t]*(;[^\n]*)?)", line, re.S)
+            if not pm or (pm.group(1) and int(pm.group(1), 16) > U64MAX):
+                # cannot be completed to a valid line any more: waiting for the LF or refusing right away are both fine
+                return "incomplete-or-invalid", body, pos, feats, "chunk-size line cannot become valid"
+            if pm.group(2)[:1] in (b" ", b"\t"):
+                feats.add("bws")
             return "incomplete", body, pos, feats, ""
         line = stream[pos:lf]
         if line.endswith(b"\r"):
@@ -401,6 +407,7 @@ def ref_next(stream, pos, lvl):
     host = [v for n, v in fields if n.lower() == b"host"]
     bpos = he + 4
     lenient = []
+    m.lenient = lenient          # (shared list: later appends are visible whichever way we return)
     if v11 and not host:
         if lvl > -3:
             m.cls, m.why = "invalid-head", "HTTP/1.1 request without Host"
@@ -436,8 +443,7 @@ def ref_next(stream, pos, lvl):
                     return m
                 for l in stream[end:te2].split(b"\r\n"):
                     if not re.fullmatch(rb"(" + TOKEN + rb"):[ \t]*([\x20-\x7e\t]*?)[ \t]*", l):
-                        m.cls, m.why = "garbage", "non-canonical trailer"
-                        return m
+                        lenient.append("odd-trailer")     # outside the canonical domain: accept or refuse, both fine
                 m.end = te2 + 4
             m.cls = "lenient" if lenient else "valid"
         elif st == "incomplete":
@@ -654,6 +660,10 @@ def oracle(case, o):
             errs.append(("frame: upload data differs from the reference body",
                          "request #%d (%s): got %r, reference %r" % (idx, m.cls, seen["up"][:60], m.body[:60])))
         if m.cls == "incomplete":
+            if lenient and not seen["final"] and pi < len(replies) and 400 <= replies[pi][0] <= 599:
+                pi += 1                             # MAY-accept rendering refused cleanly before the end arrived
+                expect = "closed"
+                break
             if seen["final"]:
                 errs.append(("frame: final handler call for an incomplete request", "request #%d" % idx))
             break
@@ -869,8 +879,12 @@ def ref_chunk_line(buf, lvl):
 
 class Spec:
     props_module = "Mhd.Props.C03"
-    required_theorems = ["Mhd.C03.decideBody_valid", "Mhd.C03.decideBody_rejects_defects",
-                         "Mhd.C03.no_reparse"]
+    required_theorems = ["Mhd.C03.decideBody_valid", "Mhd.C03.decideBody_rejects_defects", "Mhd.C03.decideBody_te_cl_tolerated",
+                         "Mhd.C03.chunked_decode_encode", "Mhd.C03.chunked_upload_is_body", "Mhd.C03.steps_idle",
+                         "Mhd.C03.split_independence", "Mhd.C03.feed_feed", "Mhd.C03.malformed_chunk_rejected",
+                         "Mhd.C03.chunk_error_no_resync", "Mhd.C03.pipeline_no_desync", "Mhd.C03.frames_agree_reference", "Mhd.C03.no_reparse",
+                         "Mhd.C03.no_further_request", "Mhd.C03.flagsWF_reachable", "Mhd.C03.error_reply_taints",
+                         "Mhd.C03.no_reparse_run"]
     trusted_base = ["Lean 4 kernel", "axioms: propext, Classical.choice, Quot.sound at most (audited per theorem)",
                     "hand-written model lean/Mhd/Model/Framing*.lean, Chunked.lean tied to connection.c by this run's correspondence",
                     "reference framer / chunk grammar in lean/Mhd/Model/FramingRef.lean (specification, read it) and its independent Python twin in tools/props/C03.py",
@@ -1145,10 +1159,54 @@ class Spec:
                     return n
         return n
 
+    def run_refcheck(self, cases, failures, stats):
+        """the Lean reference framer (`Framer.frames`, used in the theorems' spec side) against the
+        independent Python reference framer, on the strictly valid prefix of every distinct stream"""
+        seen = {}
+        for c in cases:
+            seen.setdefault((c["lvl"], c["stream"]), c)
+        keys = list(seen)
+        mout, mrc, merr = run_driver(self.driver, ["ref %d %s" % (lvl, hx(st)) for lvl, st in keys])
+        if mrc != 0 or len(mout) != len(keys):
+            failures.append(vlib.Failure("model", "frame: model driver failed (ref)", (merr or "")[-500:], "ref", ENGINE))
+            return
+        for (lvl, stream), line in zip(keys, mout):
+            stats["ref_checked"] += 1
+            frames, _, end = line.rpartition("|")
+            lean = []
+            for f in frames.split():
+                p = f.split(":")
+                lean.append((bytes.fromhex(p[1]) if p[1] != "-" else b"", bytes.fromhex(p[2]) if p[2] != "-" else b"",
+                             bytes.fromhex(p[3]) if p[3] != "-" else b"", p[4] == "1"))
+            pos, py, pend = 0, [], None
+            while pos < len(stream):
+                m = ref_next(stream, pos, lvl)
+                if m.cls != "valid":
+                    pend = "lenient" if (getattr(m, "lenient", []) or "without Host" in m.why) else m.cls
+                    break
+                py.append((m.method, m.target, m.body, m.persistent))
+                pos = m.end
+                if not m.persistent:
+                    pend = "closed"
+                    break
+            e = end.strip()
+            if pend in ("lenient", "garbage", "incomplete-or-invalid"):
+                ok = lean[:len(py)] == py           # the strict Lean reference may stop or go on here: compare the prefix only
+            elif pend in ("invalid-body", "incomplete"):
+                # on a truncated / malformed body the two references may word the end differently
+                ok = lean == py and (e == "invalid" or e.startswith("incomplete"))
+            else:
+                want_end = {None: "incomplete 0", "closed": "closed", "invalid-head": "invalid"}[pend]
+                ok = lean == py and e == want_end
+            if not ok:
+                failures.append(vlib.Failure("model", "frame: Lean reference framer and Python reference framer differ",
+                                             "lean: %s | python: %s end=%s" % (line[:300], [(a, b, c[:20], d) for a, b, c, d in py], pend),
+                                             {"lvl": lvl, "stream_text": stream.decode("latin-1")}, ENGINE))
+
     def explore(self, ctx, boost):
         failures = []
         stats = {"cases": 0, "reqs_seen": 0, "status": {}, "closed": 0, "open": 0, "defect": {}, "lvl": {},
-                 "model_out_of_domain": 0, "small_cases": 0, "chunk_outcomes": {}}
+                 "model_out_of_domain": 0, "small_cases": 0, "chunk_outcomes": {}, "ref_checked": 0}
         # corpus first
         cdir = os.path.join(vlib.VERIF, "corpus", ENGINE)
         corpus = []
@@ -1169,16 +1227,20 @@ class Spec:
         normal = [c for c in corpus if not c.get("small")]
         self.run_cases(normal, failures, stats) if normal else None
         self.run_small(small, failures, stats) if small else None
-        n_streams = (90 if ctx.tier == "quick" else 900) * (2 if boost else 1)
+        n_streams = (2500 if ctx.tier == "quick" else 15000) * (2 if boost else 1)
         cases = self.gen_cases(ctx, n_streams)
         B = 1500
         for i in range(0, len(cases), B):
             self.run_cases(cases[i:i + B], failures, stats)
             if len([f for f in failures if f.concrete()]) > 25:
                 break
-        sm = self.small_arena_cases(ctx, 60 if ctx.tier == "quick" else 400)
+        ctx.note("daemon cases done: %d" % stats["cases"])
+        self.run_refcheck(corpus + cases, failures, stats)
+        ctx.note("reference framers cross-checked on %d streams" % stats["ref_checked"])
+        sm = self.small_arena_cases(ctx, 400 if ctx.tier == "quick" else 3000)
         self.run_small(sm, failures, stats)
         nchunk = self.run_chunk(ctx, failures, stats, 4 if ctx.tier == "quick" else 5)
+        ctx.note("white-box decoder cases done: %d" % nchunk)
         distinct = len({(c["lvl"], c["stream"], tuple(c["behs"]), tuple(c["segs"])) for c in cases})
         samples = [self.case_input(c) for c in (cases[:1] + cases[len(cases) // 2:len(cases) // 2 + 1])]
         for s in samples:
@@ -1191,7 +1253,8 @@ class Spec:
                        "against the white-box decoder (exhaustive for that bound)" % (4 if ctx.tier == "quick" else 5),
                "samples": samples, "corpus_cases": len(corpus), "streams": n_streams,
                "daemon_cases": stats["cases"], "small_arena_cases_oracle_only": stats["small_cases"],
-               "chunk_lines_exhaustive": nchunk, "model_out_of_domain_skipped": stats["model_out_of_domain"],
+               "chunk_cases": nchunk, "chunk_buffers_exhaustive": getattr(self, "n_chunk_exh", 0),
+               "reference_framer_streams_cross_checked": stats["ref_checked"], "model_out_of_domain_skipped": stats["model_out_of_domain"],
                "outcomes": {"status": stats["status"], "server_closed": stats["closed"], "left_open": stats["open"],
                             "requests_seen_by_handler": stats["reqs_seen"], "chunk": stats["chunk_outcomes"]},
                "defect_classes": stats["defect"], "levels": stats["lvl"],
@@ -1205,7 +1268,7 @@ def replay(ctx, path):
     inp = r["input"]
     fl = []
     stats = {"cases": 0, "reqs_seen": 0, "status": {}, "closed": 0, "open": 0, "defect": {}, "lvl": {},
-             "model_out_of_domain": 0, "small_cases": 0, "chunk_outcomes": {}}
+             "model_out_of_domain": 0, "small_cases": 0, "chunk_outcomes": {}, "ref_checked": 0}
     if isinstance(inp, str):
         hout, _, _ = vlib.run_lines(sp.chunk_harness, [inp])
         mout, _, _ = run_driver(sp.driver, [inp])
